@@ -208,6 +208,9 @@ def run_case(c, d):
         x = gen.noise(c.rng(d, 'x'), d['N'], True)
         P = d['P']
         for kw, why in (({'NSIG': 2, 'threshold': 2.0}, 'NSIG-and-threshold-together'),
+                        ({'NSIG': 0, 'threshold': 2.0}, 'NSIG-and-threshold-together'),
+                        ({'NSIG': 2, 'threshold': 0}, 'NSIG-and-threshold-together'),
+                        ({'NSIG': 0, 'threshold': 0.0}, 'NSIG-and-threshold-together'),
                         ({'NSIG': -1}, 'negative-NSIG'), ({'NSIG': P}, 'NSIG-equal-P'),
                         ({'NSIG': P + 3}, 'NSIG-above-P')):
             for fn in ('music', 'ev', 'eigen'):
@@ -262,6 +265,13 @@ def run_case(c, d):
         return
     c.require('exact:pseudo-spectrum-positive', bool(not np.any(np.isnan(psd)) and np.all(psd > 0)),
               {'min': float(np.nanmin(psd))}, feats)
+    # finite wherever the noise-subspace projection does not vanish (two or more bins away from a tone)
+    if bins_of is not None:
+        tb = sorted(set(b % NFFT for b in (d['bins'] + [-b for b in d['bins']] if real else d['bins'])))
+        far = np.array([min(abs((int(b) - t + NFFT // 2) % NFFT - NFFT // 2) for t in tb) >= 2 for b in bins_of])
+        if np.any(far):
+            c.require('exact:finite-away-from-the-tones', bool(np.all(np.isfinite(psd[far]))),
+                      {'non_finite': int(np.sum(~np.isfinite(psd[far])))}, feats)
     S = np.asarray(S)
     nonneg = int(np.sum(S > 1e-8 * S[0]))
     c.require('exact:exactly-K-non-negligible-singular-values', nonneg == K, {'count': nonneg, 'K': K, 'S': S[:8]}, feats)
